@@ -1,6 +1,7 @@
 """C07 — P@S interaction models combine form and structure factor as documented."""
 from __future__ import annotations
 
+import os
 import random
 
 import numpy as np
@@ -137,7 +138,74 @@ def _translate_init():
     return body + "    [ " + ";\n      ".join(outs[n] for n in need) + " ]"
 
 
+def _translate_combination():
+    """the tail of ProductKernel.Iq of the current tree - PS, combined_scale, final_result - evaluated symbolically
+    (harness/nptrans.py) once for each value of the two flags it branches on.  Returns {(volfrac_in_p, beta): expr}."""
+    import ast
+    from . import nptrans
+    path = os.path.join(common.REPO, "sasmodels", "product.py")
+    try:
+        _, body = nptrans.function_body(path, "ProductKernel.Iq")
+        txt = [ast.unparse(b) for b in body]
+        for need in ("scale, background = (values[0], values[1])", "volfrac = values[self._volfrac_index]",
+                     "F, Fsq, radius_effective, shell_volume, volume_ratio = self.p_kernel.Fq(p_details, p_values, cutoff, magnetic, er_mode)",
+                     "S = self.s_kernel.Iq(s_details, s_values, cutoff, False)", "return final_result"):
+            if need not in txt and need.replace("(values[0], values[1])", "values[0], values[1]") not in txt:
+                raise Untranslatable("ProductKernel.Iq: statement not found: %s" % need)
+        i0 = next((i for i, t in enumerate(txt) if t.startswith("PS = ")), None)
+        i1 = next((i for i, t in enumerate(txt) if t.startswith("final_result = ")), None)
+        iS = txt.index("S = self.s_kernel.Iq(s_details, s_values, cutoff, False)")
+        if i0 is None or i1 is None or not (iS < i0 < i1):
+            raise Untranslatable("ProductKernel.Iq: PS / final_result not after the S evaluation")
+        for b in body[i1 + 1:]:
+            if any(isinstance(n, ast.Name) and isinstance(n.ctx, ast.Store) and n.id == "final_result" for n in ast.walk(b)):
+                raise Untranslatable("final_result is changed after it was computed")
+        out = {}
+        for vp in (False, True):
+            for beta in (False, True):
+                ev = nptrans.Evaluator({"Fsq": ("q",), "F": ("q",), "S": ("q",), "scale": (), "background": (), "shell_volume": (), "volfrac": ()})
+                ev.assume = {"beta_mode": beta, "self._volfrac_in_p": vp}
+                ev.run(body[i0:i1 + 1])
+                r = ev.env.get("final_result")
+                if r is None or r.axes != ("q",):
+                    raise Untranslatable("final_result is not one value per q")
+                out[(vp, beta)] = r.e
+        return out
+    except nptrans.Untranslatable as exc:
+        raise Untranslatable(str(exc))
+
+
+def gen_combination():
+    """Regenerate Gen/C07_combine.v from the text of ProductKernel.Iq."""
+    from . import nptrans
+    lines = ["(* GENERATED by harness/c07.py from sasmodels/product.py (ProductKernel.Iq: PS, combined_scale, final_result) *)",
+             "From Coq Require Import List Bool.", "From SM Require Import Base.Num C07.Model.", ""]
+    note = None
+    try:
+        t = _translate_combination()
+        names = {("Fsq", ()): "Fsq", ("F", ()): "F", ("S", ()): "S", ("scale", ()): "scale", ("background", ()): "bg", ("shell_volume", ()): "shell", ("volfrac", ()): "volfrac"}
+        c = {k: nptrans.coq(e, names, {}) for k, e in t.items()}
+        body = "if volfrac_in_p then (if beta then %s else %s) else (if beta then %s else %s)" % (c[(True, True)], c[(True, False)], c[(False, True)], c[(False, False)])
+    except (Untranslatable, nptrans.Untranslatable, OSError, SyntaxError) as exc:
+        note = "%s: %s" % (type(exc).__name__, exc)
+        body = "combine O scale bg volfrac volfrac_in_p beta F Fsq S shell"
+    lines.append("Definition combine_translated : bool := %s." % ("true" if note is None else "false"))
+    if note:
+        lines.append("(* not translated: %s *)" % note.replace("*)", "* )"))
+    lines += ["Definition code_combine {T : Type} (O : Ops T) (scale bg volfrac : T) (volfrac_in_p beta : bool) (F Fsq S shell : T) : T :=", "  %s." % body, ""]
+    common.write_if_changed(os.path.join(common.THEORIES, "Gen", "C07_combine.v"), "\n".join(lines))
+    return note
+
+
+COMBINE_NOTE = [None]
+
+
 def gen():
+    COMBINE_NOTE[0] = gen_combination()
+    return _gen_layout()
+
+
+def _gen_layout():
     """Regenerate Gen/C07_code.v from the text of product.py (ProductKernel.__init__)."""
     import os
     lines = ["(* GENERATED by harness/c07.py from sasmodels/product.py: the index arithmetic of ProductKernel.__init__ over Z.",
@@ -177,6 +245,10 @@ def main(run):
         run.notes.append("ProductKernel.__init__ not translated (%s): the source-text obligation C07_code_layout is vacuous in this run, the behavioural tie decides" % note[0])
     else:
         run.notes.append("the index arithmetic of ProductKernel.__init__ translated from the current product.py (Gen/C07_code.v) and proved equal to the model layout (C07_code_layout)")
+    if COMBINE_NOTE[0]:
+        run.notes.append("ProductKernel.Iq combination not translated (%s): C07_code_combine / C07_code_formula are vacuous in this run" % COMBINE_NOTE[0])
+    else:
+        run.notes.append("the final combination of ProductKernel.Iq (PS, combined_scale, final_result) translated from the current product.py (Gen/C07_combine.v, symbolic numpy evaluation per flag combination) and proved equal to the model's combine (C07_code_combine, C07_code_formula)")
     pnames = p_candidates() if thorough else [p for p in QUICK_P]
     cases, metas = [], []
     stats = dict(pairs=0, modes={}, beta=0, volfrac_in_p=0, hollow=0, dims={"1d": 0, "2d": 0}, with_dispersity=0,
